@@ -40,6 +40,9 @@ ENUM_SCRIPTS = [
     "maint:111,sync:101,is_maint,join,is_maint,create",
     "create,sync:110,find,is_maint,sync:111,join,is_maint,find,create,ctx",
     "recover:1,create,maint:011,is_maint,set_handler,join,is_maint,sync:111,is_maint,join",
+    # a session that was looked up successfully just before maintenance starts (start_maintenance keeps the sessions,
+    # sync_user_data destroys them) and is used again while the thread runs
+    "create,find,ctx,maint:111,ctx,find,is_maint,ctx,join,is_maint,ctx",
 ]
 ENUM_SCRIPTS_THOROUGH = ENUM_SCRIPTS + [
     "maint:111,sync:111,is_maint",
